@@ -1,7 +1,6 @@
 package core
 
 import (
-	"errors"
 	"io"
 	"os"
 	"regexp"
@@ -41,18 +40,18 @@ type Keys struct {
 
 // WaitAvailableKeys waits until an input key is either read from standard input,
 // or directly returns if the key stack still/already has available keys.
-func WaitAvailableKeys(keys *Keys, cfg *inputrc.Config) {
+func WaitAvailableKeys(keys *Keys, cfg *inputrc.Config) error {
 	keys.cfg = cfg
 
 	YieldPoint("wait.entry")
 
 	if len(keys.buf) > 0 && !keys.mustWait {
-		return
+		return nil
 	}
 
 	// The macro engine might have fed some keys
 	if len(keys.macroKeys) > 0 {
-		return
+		return nil
 	}
 
 	keys.mutex.Lock()
@@ -74,8 +73,10 @@ func WaitAvailableKeys(keys *Keys, cfg *inputrc.Config) {
 		// send by ourselves, because we pause reading.
 		keyBuf, err := keys.readInputFiltered()
 		YieldPoint("wait.read.returned")
-		if err != nil && errors.Is(err, io.EOF) {
-			return
+		if err != nil {
+			// The terminal input has ended or failed: there will
+			// be no more keys, the caller must stop reading.
+			return err
 		}
 
 		if len(keyBuf) == 0 {
@@ -101,7 +102,7 @@ func WaitAvailableKeys(keys *Keys, cfg *inputrc.Config) {
 			keys.mutex.RUnlock()
 		}
 
-		return
+		return nil
 	}
 }
 
